@@ -211,7 +211,8 @@ _METALS = ["[Hg:{m}][Cl:{x}]", "[Zn:{m}][Cl:{x}]", "[Mg:{m}][Br:{x}]", "[Cd:{m}]
 _ACIDS = ["[Cl:{q}]", "[Br:{q}]", "[O:{q}][H:{r}]", "[O:{q}][C:{r}]([CH3:{s}])=[O:{t}]", "[F:{q}]", "[S:{q}][CH3:{r}]", "[O:{q}][CH3:{r}]"]
 _SPECTATORS = ["[H:{a}][H:{b}]", "[OH2:{a}]", "[O:{a}]([H:{b}])[H:{c}]", "[Na+:{a}]", "[Cl-:{a}]", "[He:{a}]", "[Hg:{a}]", "[Hf:{a}]",
                "[Ho+3:{a}]", "[Hg+2:{a}]", "[Cl:{a}][Hg:{b}][Cl:{c}]", "[NH3:{a}]", "[N:{a}]([H:{b}])([H:{c}])[H:{d}]", "[Ne:{a}]",
-               "[CH4:{a}]", "[C:{a}]([H:{b}])([H:{c}])([H:{d}])[H:{e}]", "[Cl:{a}][H:{b}]", "[K+:{a}].[OH-:{b}]", "[K+:{a}].[O-:{b}][H:{c}]", "[H+:{a}]", "[H-:{a}]", "[H+:{a}].[Cl-:{b}]"]
+               "[CH4:{a}]", "[C:{a}]([H:{b}])([H:{c}])([H:{d}])[H:{e}]", "[Cl:{a}][H:{b}]", "[K+:{a}].[OH-:{b}]", "[K+:{a}].[O-:{b}][H:{c}]", "[H+:{a}]", "[H-:{a}]", "[H+:{a}].[Cl-:{b}]",
+               "[*:{a}][H:{b}]", "[*:{a}]([H:{b}])[CH3:{c}]", "[*:{a}][CH2:{b}][H:{c}]", "[*:{a}][OH:{b}]"]
 
 
 class _Maps:
@@ -292,6 +293,8 @@ def explicit_h_reaction(rng):
             tags.add("spectator_explicit_h")
         if "[H+:" in s or "[H-:" in s:
             tags.add("spectator_bare_h")
+        if "[*:" in s:
+            tags.add("spectator_wildcard_atom")
         lhs.append(s); rhs.append(s)
     txt = ".".join(lhs) + ">>" + ".".join(rhs)
     for el in ("Hg", "Hf", "Ho", "He"):
@@ -312,7 +315,13 @@ _LOOKALIKE_CORES = [
 ]
 _LOOKALIKE_POOL = ["CSC#N", "CN=C=S", "CCN=C=NC", "NC#N", "CNC#N", "C=C=CC", "CCC#C", "CN=C=O", "COC#N", "CC(=O)C#N", "S=C=O",
                    "CC=C=O", "C[N+]#[C-]", "CN=[N+]=[N-]", "CS(C)=O", "CCS(=O)(=O)C", "CC#CCC", "CC=C=CCC", "CC#N", "C=C=N", "CC=C=NC",
-                   "CC#CN(C)C", "CSC=C=S", "CSC#CS", "N=C=NC", "CN(C)C#N", "OC#N", "N=C=O"]
+                   "CC#CN(C)C", "CSC=C=S", "CSC#CS", "N=C=NC", "CN(C)C#N", "OC#N", "N=C=O",
+                   # rings with alternating bond orders: atoms with identical neighbour sets reached by exchanged bond orders
+                   "FC1=CC(Cl)=C1", "CC1=CC(N)=C1", "FC1=CC=CC(Cl)=CC=C1", "ClC1=CC(Br)=C1", "C1=CC(C)=C1O"]
+_LOOKALIKE_CORES += [
+    "[F:1][C:2]1=[CH:3][C:4]([Cl:5])=[CH:6]1.[I:7][Br:8]>>[F:1][C:2]1([I:7])[CH:3]([Br:8])[C:4]([Cl:5])=[CH:6]1",
+    "[CH3:1][C:2]1=[CH:3][C:4]([NH2:5])=[CH:6]1.[Cl:7][Cl:8]>>[CH3:1][C:2]1([Cl:7])[CH:3]([Cl:8])[C:4]([NH2:5])=[CH:6]1",
+]
 
 
 def lookalike_reaction(rng):
